@@ -90,7 +90,8 @@ MonScopes == {Scope("globally", NoPred, NoPred),
               Scope("after", Ev("p", "P", VEq(NumA("1"))), NoPred),
               Scope("until", NoPred, Ev("q", "", NoPred)),
               Scope("after_until", Ev("p", "P", NoPred), Ev("q", "", VEq(AV("P")))),
-              Scope("after_until", Ev("p", "", NoPred), Ev("q", "", NoPred))}
+              Scope("after_until", Ev("p", "", NoPred), Ev("q", "", NoPred)),
+              Scope("until", NoPred, Dj(<<Ev("q", "", NoPred), Ev("p", "", VEq(NumA("1")))>>))}
 X12(al1, pr1, al2, pr2) == Dj(<<Ev("x1", al1, pr1), Ev("x2", al2, pr2)>>)
 X123 == Dj(<<Ev("x1", "", NoPred), Ev("x2", "", VEq(NumA("1"))), Ev("x3", "", NoPred)>>)
 MonTimes == {[k |-> "notime"], [k |-> "time", num |-> "1", unit |-> "s"], [k |-> "time", num |-> "2", unit |-> "s"]}
@@ -105,7 +106,15 @@ MonPatterns ==
     Pat2("forbids", Ev("y", "", VEq(NumA("1"))), X123),
     Pat2("requires", X12("", NoPred, "", VEq(NumA("1"))), Ev("y", "", NoPred)),
     Pat2("requires", X12("X", NoPred, "X", NoPred), Ev("y", "", VEq(AV("X")))),
-    Pat2("requires", X12("", VEq(NumA("1")), "", NoPred), Ev("y", "Y", VEq(NumA("1")))) }
+    Pat2("requires", X12("", VEq(NumA("1")), "", NoPred), Ev("y", "Y", VEq(NumA("1")))),
+    \* disjunctions in positions that must NOT be split
+    Pat2("requires", Ev("y", "", NoPred), X12("", NoPred, "", VEq(NumA("1")))),
+    Pat2("requires", Ev("y", "Y", NoPred), X12("", VEq(AV("Y")), "", NoPred)),
+    Pat2("requires", X12("", NoPred, "", NoPred), Dj(<<Ev("y", "", NoPred), Ev("x3", "", VEq(NumA("1")))>>)),
+    Pat2("causes", Ev("y", "", NoPred), X12("", NoPred, "", VEq(NumA("1")))),
+    Pat2("causes", X12("", NoPred, "", NoPred), Dj(<<Ev("y", "", NoPred), Ev("x3", "", VEq(NumA("1")))>>)),
+    Pat2("forbids", X12("", NoPred, "", VEq(NumA("1"))), Ev("y", "", NoPred)),
+    Pat2("forbids", X12("X", NoPred, "", NoPred), Dj(<<Ev("y", "", NoPred), Ev("x3", "", VEq(NumA("1")))>>)) }
 MonShapes == {Prop(s, WithTime(p, tm)) : s \in MonScopes, p \in MonPatterns, tm \in MonTimes}
 
 ShapeMembers ==
